@@ -6,6 +6,28 @@ Import ListNotations.
 Open Scope string_scope.
 Open Scope Z_scope.
 
+(* ==== PRIMARY STATEMENTS: the code as it is now ([cfg_repaired]), EVERY history, no guard. ==== *)
+
+(* Only the node named by primaryWriterID is marked primary, and that node exists and is
+   marked primary (see C23_writer_consistent_meaning: at most one primary). *)
+Theorem C23_writer_consistent : forall h,
+  hist_ok cfg_repaired no_guard empty_state h = true ->
+  writer_consistent (run cfg_repaired empty_state h) = true.
+Proof. exact (writer_repaired cfg_repaired eq_refl eq_refl eq_refl). Qed.
+Print Assumptions C23_writer_consistent.
+
+(* Re-registering an existing node - whatever record is proposed - keeps the writer state the
+   cluster recorded for it (in any state). *)
+Theorem C23_readd_keeps_writer_state : forall s n old,
+  get (KS (n_id n)) (nodes s) = Some old ->
+  exists new, get (KS (n_id n)) (nodes (fst (apply_put_node cfg_repaired s n))) = Some new /\ n_ws new = n_ws old.
+Proof. exact (readd_repaired cfg_repaired eq_refl eq_refl eq_refl). Qed.
+Print Assumptions C23_readd_keeps_writer_state.
+
+(* (C23_rbac_refs_ok below is unguarded and holds for every variant.) *)
+
+(* ==== The variant-generic results ============================================================ *)
+
 (* In every state reached by a history whose node commands respect [cmd_node_guard]
    (re-registration proposes the recorded writer_state, the primary is not removed, only
    registered nodes are promoted - each clause vacuous once the function is repaired):
